@@ -52,9 +52,15 @@ def series(i, weights, c, L, fam):
     return out
 
 
-def class_layout(n, n_classes, balanced):
+def class_layout(n, n_classes, balanced, rare_k=0):
     """class index of each training instance, interleaved (never sorted by class).
-    balanced: equal counts; else class 0 gets three times the share of every other class."""
+    balanced: equal counts; False: class 0 gets three times the share of every other class;
+    "rare": class rare_k occurs exactly once (at position 1), the others alternate."""
+    if balanced == "rare":
+        others = [k for k in range(n_classes) if k != rare_k]
+        ks = [others[i % len(others)] for i in range(n)]
+        ks[1] = rare_k
+        return ks
     if balanced:
         return [i % n_classes for i in range(n)]
     # 3:1(:1) - cycle through a pattern 0,0,0,1 (,2)
@@ -62,9 +68,9 @@ def class_layout(n, n_classes, balanced):
     return [pat[i % len(pat)] for i in range(n)]
 
 
-def train_panel(n, n_classes, balanced, n_cols, L, fam):
+def train_panel(n, n_classes, balanced, n_cols, L, fam, rare_k=0):
     """-> (list[n][n_cols][L] of floats, class index list)"""
-    ks = class_layout(n, n_classes, balanced)
+    ks = class_layout(n, n_classes, balanced, rare_k)
     X = []
     for i, k in enumerate(ks):
         w = [0.0] * n_classes
@@ -302,21 +308,22 @@ def kind_of(arr):
 
 
 # ------------------------------------------------------------------ estimator menus
-def make_classifier(name, rs, opt=0):
+def make_classifier(name, rs, opt=0, n_jobs=None):
     """name -> unfitted classifier; small ensembles, explicit random_state everywhere.
     opt selects a second parameterisation where one exists (thorough tier)."""
+    nj = {} if n_jobs is None else {"n_jobs": n_jobs}
     if name == "TSF":
         from sktime.classification.interval_based import TimeSeriesForestClassifier
         return TimeSeriesForestClassifier(n_estimators=(4, 7)[opt], min_interval=(3, 5)[opt],
-                                          random_state=rs)
+                                          random_state=rs, **nj)
     if name == "RISE":
         from sktime.classification.interval_based import RandomIntervalSpectralForest
         return RandomIntervalSpectralForest(n_estimators=(4, 6)[opt], min_interval=(8, 10)[opt],
                                             acf_lag=(6, 4)[opt], acf_min_values=(2, 3)[opt],
-                                            random_state=rs)
+                                            random_state=rs, **nj)
     if name == "STSF":
         from sktime.classification.interval_based._stsf import SupervisedTimeSeriesForest
-        return SupervisedTimeSeriesForest(n_estimators=(3, 5)[opt], random_state=rs)
+        return SupervisedTimeSeriesForest(n_estimators=(3, 5)[opt], random_state=rs, **nj)
     if name == "BOSS":
         from sktime.classification.dictionary_based import BOSSEnsemble
         return BOSSEnsemble(min_window=(16, 12)[opt], max_ensemble_size=(5, 8)[opt],
@@ -352,7 +359,8 @@ CLF_COLS = {"TSF": [1], "RISE": [1], "STSF": [1], "IBOSS": [1], "BOSS": [1], "CB
             "MUSE": [1, 2], "CENS": [2]}
 
 
-def make_regressor(rs, opt=0):
+def make_regressor(rs, opt=0, n_jobs=None):
     from sktime.regression.interval_based import TimeSeriesForestRegressor
+    nj = {} if n_jobs is None else {"n_jobs": n_jobs}
     return TimeSeriesForestRegressor(n_estimators=(4, 7)[opt], min_interval=(3, 5)[opt],
-                                     random_state=rs)
+                                     random_state=rs, **nj)
